@@ -29,7 +29,9 @@ Proof. exact ev_exactly_once. Qed.
 Print Assumptions C17_ev_exactly_once.
 
 (* "one that raises does not prevent later ones": a turn runs every callable that was queued when
-   it started (raising or not), and exactly those: re-entrant submissions wait for a later turn *)
+   it started -- whether it returns, raises an Exception or raises any other BaseException (rkind
+   RNo/RExc/RBase; the handler is the bare `except:`) -- and exactly those: re-entrant submissions
+   wait for a later turn *)
 Theorem C17_ev_isolation : forall ops st t st' t',
   run src_cfg q0 ops = (st, t) -> turn src_cfg st = (st', t') ->
   rans t' = map sid (events st) /\ map sid (events st') = subs t'.
